@@ -19,7 +19,7 @@ INSENSITIVE = {"sorted", "set", "frozenset", "len", "min", "max", "sum", "any", 
 SET_METHODS_U = {"union", "intersection", "difference", "symmetric_difference", "copy"}
 ABSORBING_METHODS = {"add", "update", "discard", "remove", "intersection_update", "difference_update", "issubset", "issuperset",
                      "isdisjoint", "__contains__", "get", "setdefault", "pop", "clear"}
-LISTING_TAILS = {"glob", "rglob", "iterdir", "listdir", "scandir", "walk"}
+LISTING_TAILS = {"glob", "rglob", "iterdir", "listdir", "scandir", "walk", "as_completed", "imap_unordered"}  # completion order of a pool is as arbitrary as a directory listing
 ORDER_PRESERVING = {"list", "tuple", "iter", "reversed", "enumerate", "zip", "map", "filter", "chain", "dict", "deque", "islice", "str", "repr"}
 
 
